@@ -1,0 +1,149 @@
+//! Verification facade for Roto filters (feature `verif-hooks`): compile a
+//! script the way `Manager::compile_roto_script` does, fetch the three filter
+//! functions by their fixed names, call them the way the units do, and
+//! capture what a unit sends to its gate. Add-only; exposes, never alters,
+//! behaviour.
+use std::fmt::Debug;
+use std::sync::{Arc, Mutex};
+
+use async_trait::async_trait;
+use bytes::Bytes;
+use routecore::bgp::message::UpdateMessage;
+use routecore::bmp::message::Message as BmpMsg;
+
+use crate::comms::{AnyDirectUpdate, DirectUpdate, Gate, GateAgent, Link};
+use crate::payload::{RotondaRoute, Update};
+use crate::roto_runtime::types::{Output, Provenance, RotoOutputStream};
+use crate::roto_runtime::{create_runtime, Ctx};
+
+pub use crate::units::bmp_tcp_in::verif_filter::FilteredRouter;
+
+/// Same types as `rib_unit::unit::RotoFuncPre`, `bgp_tcp_in::unit::RotoFunc`
+/// and `bmp_tcp_in::unit::RotoFunc` (those aliases are `pub(crate)`).
+pub type RibInPreFunc = roto::TypedFunc<
+    Ctx,
+    (roto::Val<RotondaRoute>,),
+    roto::Verdict<(), ()>,
+>;
+pub type BgpInFunc = roto::TypedFunc<
+    Ctx,
+    (roto::Val<UpdateMessage<Bytes>>, roto::Val<Provenance>),
+    roto::Verdict<(), ()>,
+>;
+pub type BmpInFunc = roto::TypedFunc<
+    Ctx,
+    (roto::Val<BmpMsg<Bytes>>, roto::Val<Provenance>),
+    roto::Verdict<(), ()>,
+>;
+
+/// A compiled filter script.
+pub struct Script(roto::Compiled);
+
+impl Script {
+    /// `Manager::compile_roto_script`: read the file, compile it against
+    /// `create_runtime()`.
+    pub fn compile_file(path: &str) -> Result<Self, String> {
+        let i = roto::read_files([path]).map_err(|e| e.to_string())?;
+        let c = i
+            .compile(create_runtime()?, usize::BITS / 8)
+            .map_err(|e| e.to_string())?;
+        Ok(Script(c))
+    }
+
+    /// The units fetch their function by fixed name; a script without it
+    /// means "no filter".
+    pub fn rib_in_pre(&mut self) -> Option<RibInPreFunc> {
+        self.0.get_function("rib-in-pre").ok()
+    }
+    pub fn bgp_in(&mut self) -> Option<BgpInFunc> {
+        self.0.get_function("bgp-in").ok()
+    }
+    pub fn bmp_in(&mut self) -> Option<BmpInFunc> {
+        self.0.get_function("bmp-in").ok()
+    }
+}
+
+fn accepted(v: roto::Verdict<(), ()>) -> bool {
+    matches!(v, roto::Verdict::Accept(_))
+}
+
+/// Call the filter as `RibUnitRunner::filter_payload` does: fresh output
+/// stream, context pointing at it. Returns (accepted, output entries).
+pub fn call_rib_in_pre(
+    f: &RibInPreFunc,
+    route: RotondaRoute,
+) -> (bool, Vec<Output>) {
+    let mut output_stream = RotoOutputStream::new();
+    let mut ctx = Ctx::new(&mut output_stream);
+    let v = f.call(&mut ctx, roto::Val(route));
+    (accepted(v), output_stream.drain().collect())
+}
+
+/// Call the filter as the BGP `Processor` does.
+pub fn call_bgp_in(
+    f: &BgpInFunc,
+    msg: UpdateMessage<Bytes>,
+    provenance: Provenance,
+) -> (bool, Vec<Output>) {
+    let mut output_stream = RotoOutputStream::new();
+    let mut ctx = Ctx::new(&mut output_stream);
+    let v = f.call(&mut ctx, roto::Val(msg), roto::Val(provenance));
+    (accepted(v), output_stream.drain().collect())
+}
+
+/// Call the filter as the BMP `RouterHandler` does.
+pub fn call_bmp_in(
+    f: &BmpInFunc,
+    msg: BmpMsg<Bytes>,
+    provenance: Provenance,
+) -> (bool, Vec<Output>) {
+    let mut output_stream = RotoOutputStream::new();
+    let mut ctx = Ctx::new(&mut output_stream);
+    let v = f.call(&mut ctx, roto::Val(msg), roto::Val(provenance));
+    (accepted(v), output_stream.drain().collect())
+}
+
+//------------ capturing what a unit sends downstream -------------------------
+
+#[derive(Debug, Default)]
+struct CaptureTarget(Mutex<Vec<Update>>);
+
+#[async_trait]
+impl DirectUpdate for CaptureTarget {
+    async fn direct_update(&self, update: Update) {
+        self.0.lock().unwrap().push(update);
+    }
+}
+
+impl AnyDirectUpdate for CaptureTarget {}
+
+/// A downstream link in direct-update mode that records every `Update` the
+/// gate sends, in order.
+pub struct Capture {
+    target: Arc<CaptureTarget>,
+    _any: Arc<dyn AnyDirectUpdate>,
+    _link: Link,
+}
+
+impl Capture {
+    /// Subscribes a recording link to `gate`. The gate's command queue is
+    /// processed here once (a running unit does that in its own loop).
+    pub async fn attach(gate: &Gate, agent: &mut GateAgent) -> Self {
+        let target = Arc::new(CaptureTarget::default());
+        let any: Arc<dyn AnyDirectUpdate> = target.clone();
+        let mut link = agent.create_link();
+        link.set_direct_update_target(any.clone());
+        // one Subscribe command
+        let res = tokio::select! {
+            res = link.connect(false) => res,
+            _ = async { loop { let _ = gate.process().await; } } => unreachable!(),
+        };
+        res.expect("gate is alive");
+        Capture { target, _any: any, _link: link }
+    }
+
+    /// Everything received since the last call.
+    pub fn take(&self) -> Vec<Update> {
+        std::mem::take(&mut *self.target.0.lock().unwrap())
+    }
+}
